@@ -27,7 +27,7 @@
      flows/modifiers FieldModifier.Apply       normalises the text of the value it is about to store in the session's contact
      flows/runs run.SaveResult                 truncates the value of the result being saved into the run
    al_global_writes (package, function):
-     RegisterXFunction, RegisterXTest, RegisterValidatorTag, RegisterValidatorAlias   exported start-up registration; in the
+     RegisterXFunction, RegisterXWork, RegisterXTest, RegisterValidatorTag, RegisterValidatorAlias   exported start-up registration; in the
                                                library only reachable from init(); documented as configuration
      utils/smtpx SetSender                     test hook replacing the SMTP sender *)
 (* al_mutators (type of a package-level instance, mutating method):
@@ -58,7 +58,7 @@ Definition shared_state_allow : allow_lists := {|
     ("flows/routers", "baseRouter.EnumerateLocalizables");
     ("flows/modifiers", "FieldModifier.Apply"); ("flows/runs", "run.SaveResult") ];
   al_global_writes := [
-    ("excellent/functions", "RegisterXFunction"); ("flows/routers/cases", "RegisterXTest");
+    ("excellent/functions", "RegisterXFunction"); ("excellent/functions", "RegisterXWork"); ("flows/routers/cases", "RegisterXTest");
     ("utils", "RegisterValidatorTag"); ("utils", "RegisterValidatorAlias"); ("utils/smtpx", "SetSender") ];
   al_mutators := [
     ("excellent/types.XArray", "baseValue.SetDeprecated"); ("excellent/types.XBoolean", "baseValue.SetDeprecated");
